@@ -296,6 +296,13 @@ var funcs = []fn{
 	{"direct", "*Socks5AuthUDPClient", "NewSession", "Socks5AuthUDPClientNewSession"},
 	{"direct", "*ShadowsocksNoneUDPClient", "NewSession", "NoneUDPClientNewSession"},
 	{"ss2022", "*UDPClient", "NewSession", "SS2022UDPClientNewSession"},
+	{"httpproxy", "", "serverForwardResponses", "serverForwardResponses"},
+	{"httpproxy", "", "serverForwardRequests", "serverForwardRequests"},
+	{"httpproxy", "", "removeConnectionSpecificFields", "removeConnectionSpecificFields"},
+	{"httpproxy", "", "ServerHandle", "httpServerHandle"},
+	{"ss2022", "*ShadowStreamClientConn", "Read", "ShadowStreamClientRead"},
+	{"ss2022", "*ShadowStreamClientConn", "readFirstPayloadChunk", "ShadowStreamClientReadFirstChunk"},
+	{"ss2022", "", "lengthExtendSalt", "lengthExtendSalt"},
 	{"dns", "*resultBuilder", "parseMsg", "dnsParseMsg"},
 	{"dns", "*Resolver", "doTCP", "dnsDoTCP"},
 	{"dns", "*Resolver", "sendQueries", "dnsSendQueries"},
